@@ -407,6 +407,8 @@ def one_case(args):
             if not active and not silent_required:
                 continue
             argv = [path] + obs.MODES[mode] + ["-E", str(N)]
+            if pos == "last":
+                argv += ["-v", "0"]          # detection may not depend on the log level
             if pos == "middle":
                 # configuration dimension: a custom-checks file that states the true RDH version must not switch off any other check
                 tp = os.path.join(wd, "c%d.checks.toml" % case)
